@@ -37,6 +37,25 @@ fn obs_name(obs: &mut Vec<Value>, part: &str, n: &Name) {
     obs.push(json!(["name.is_link_local", part, [], total(|| n.is_link_local())]));
     obs.push(json!(["name.is_subdomain_of", part, [], total(|| n.is_subdomain_of(n))]));
     obs.push(json!(["name.without", part, [], total(|| n.without(n).is_none() && n.without(&Name::new_unchecked("")).map(|x| x.to_string()).is_some())]));
+    // the suffix relations against names made from the dotted SUFFIXES OF THE TEXT of this name (a label may
+    // itself contain dots, so such a name can have more labels than this one while its text is a suffix), in both
+    // directions, and against this name with a label put in front
+    obs.push(json!(["name.relations-with-text-suffixes", part, [], total(|| {
+        let text = n.to_string();
+        let mut k = 0usize;
+        for (i, ch) in text.char_indices() {
+            if ch == '.' || i == 0 {
+                let suffix = if i == 0 { &text[..] } else { &text[i + 1..] };
+                let other = Name::new_unchecked(suffix);
+                k += n.is_subdomain_of(&other) as usize + other.is_subdomain_of(n) as usize;
+                k += n.without(&other).map(|x| x.get_labels().len()).unwrap_or(0);
+                k += other.without(n).map(|x| x.get_labels().len()).unwrap_or(0);
+            }
+        }
+        let longer = Name::new_unchecked(Box::leak(format!("zz.{text}").into_boxed_str()));
+        k += longer.without(n).map(|x| x.get_labels().len()).unwrap_or(0) + n.without(&longer).map(|x| x.get_labels().len()).unwrap_or(0);
+        k
+    })]));
     obs.push(json!(["name.iter+get_labels", part, [], total(|| n.iter().count() == n.get_labels().len())]));
     obs.push(json!(["name.new_with_labels", part, [], total(|| Name::new_with_labels(n.get_labels()) == *n)]));
     for l in n.get_labels() {
